@@ -142,6 +142,18 @@ func (s *Shared) Plans(doc *ast.QueryDocument, op Op, d int, withPanic, thorough
 	return out
 }
 
+// PlanFeasible tells whether every deviation of the case's plan can be expressed by the Go
+// types of this configuration (hand-written cases are written for the default options).
+func (s *Shared) PlanFeasible(doc *ast.QueryDocument, c Case) bool {
+	ref, _ := s.Reference(doc, c, Quirks{})
+	for _, pos := range ref.Positions {
+		if alt, dev := c.Plan[pos.Path]; dev && !s.Feasible(pos, alt) {
+			return false
+		}
+	}
+	return true
+}
+
 // RunCase executes one case on the default schedule under the controlled runtime.
 func (s *Shared) RunCase(c Case, doc *ast.QueryDocument) (*Inst, *explore.Exec) {
 	in := s.NewInst(c, doc)
@@ -248,6 +260,9 @@ func (s *Shared) RunMass(spec MassSpec, shard, nshard int, deadline time.Time) M
 		doc, errs := s.Parse(c.Op)
 		if errs != nil {
 			panic("extra case does not validate: " + c.Op.Text + ": " + errs[0].Message)
+		}
+		if !s.PlanFeasible(doc, c) {
+			continue // this configuration's Go types cannot express the plan
 		}
 		c.Intercept = spec.Intercept
 		in, x := s.RunCase(c, doc)
@@ -388,7 +403,7 @@ func ShapesSpec(prop, tier string) MassSpec {
 		return sp
 	}
 	sp.Gens = []GenCfg{
-		{Root: "Query", Fields: shapesFields("wide"), Conds: ShapesConds, MaxNodes: 3, Spreads: true},
+		{Root: "Query", Fields: shapesFields("wide"), Conds: ShapesConds, MaxNodes: 3, Spreads: true, Aliases: true},
 		{Root: "Query", Fields: shapesFields("core"), Conds: ShapesConds, MaxNodes: 4},
 		{Root: "Mutation", Fields: shapesFields("wide"), Conds: ShapesConds, MaxNodes: 3},
 	}
